@@ -4,6 +4,7 @@ package main
 
 import (
 	"fmt"
+	"net"
 	"net/netip"
 	"reflect"
 	"sort"
@@ -12,6 +13,7 @@ import (
 	metallbv1beta1 "go.universe.tf/metallb/api/v1beta1"
 	"go.universe.tf/metallb/internal/bgp"
 	"go.universe.tf/metallb/internal/config"
+	"go.universe.tf/metallb/internal/layer2"
 	v1 "k8s.io/api/core/v1"
 	discovery "k8s.io/api/discovery/v1"
 	metav1 "k8s.io/apimachinery/pkg/apis/meta/v1"
@@ -430,3 +432,107 @@ func sboxI(p *int32) string {
 }
 
 var _ = config.BGP
+
+// quiescentC13 judges what the layer-2 announcer of this node holds against the resources: every held
+// (service, address) is an address the Service currently has, and its interface scope is the one the
+// L2Advertisements that select the address's pool AND this node ask for (all interfaces as soon as one
+// of them names none, the union of their lists otherwise). Whether the node should announce at all is
+// C04's question and is not judged here; the answers are then read back per interface.
+func (sb *sbox) quiescentC13() {
+	c := sb.c
+	if sb.ctl.config == nil {
+		return
+	}
+	s := sb.k.Store
+	me := s.Nodes[sboxMyNode]
+	if me == nil {
+		return
+	}
+	model := vfModelPools(sboxPools(s), nil)
+	st := sb.l2.A.VerifSnapshot()
+	holders := map[string][]string{} // address@interface -> services whose held scope covers it
+	for _, key := range vfSortedKeys(st.IPs) {
+		svc := s.Services[key]
+		status := map[string]bool{}
+		if svc != nil {
+			for _, ing := range svc.Status.LoadBalancer.Ingress {
+				if cip, _, ok := vfCanonIP(ing.IP); ok {
+					status[cip] = true
+				}
+			}
+		}
+		for _, a := range st.IPs[key] {
+			ip, _, ok := vfCanonIP(a.IP)
+			if !ok {
+				continue
+			}
+			c.Eval()
+			c.Count("l2-held-addresses-checked")
+			if !status[ip] {
+				c.Violation("l2:holds-address-the-service-does-not-have"+sb.causeSuffix(), fmt.Sprintf("the announcer holds %s for %s whose status is %v: the node answers ARP/NDP for an address no Service holds", ip, key, vfSortedKeys(status)), sb.dump())
+				continue
+			}
+			for _, intf := range []string{"eth0", "eth1"} {
+				if a.AllInterfaces || sboxHas(a.Interfaces, intf) {
+					holders[ip+"@"+intf] = append(holders[ip+"@"+intf], key)
+				}
+			}
+			pn := vfPoolOf(model, []string{ip})
+			if pn == "" || pn == "*" {
+				continue
+			}
+			var pool *metallbv1beta1.IPAddressPool
+			for _, k := range vfSortedKeys(s.Pools) {
+				if s.Pools[k].Name == pn {
+					pool = s.Pools[k]
+				}
+			}
+			if pool == nil {
+				continue
+			}
+			any, all := false, false
+			ifs := map[string]bool{}
+			for _, k := range vfSortedKeys(s.L2Advs) {
+				adv := s.L2Advs[k]
+				if !sboxAdvSelectsPool(adv.Spec.IPAddressPools, adv.Spec.IPAddressPoolSelectors, pool) || !sboxSelMatch(adv.Spec.NodeSelectors, me.Labels) {
+					continue
+				}
+				any = true
+				if len(adv.Spec.Interfaces) == 0 {
+					all = true
+				}
+				for _, i := range adv.Spec.Interfaces {
+					ifs[i] = true
+				}
+			}
+			if !any {
+				c.Count("l2-held-without-selecting-advertisement")
+				continue
+			}
+			c.Count("l2-scopes-compared")
+			got := map[string]bool{}
+			for _, i := range a.Interfaces {
+				got[i] = true
+			}
+			switch {
+			case all != a.AllInterfaces:
+				c.Violation("l2:scope-differs-from-advertisements:all-interfaces"+sb.causeSuffix(), fmt.Sprintf("%s %s is held with all-interfaces=%v (interfaces %v); the L2Advertisements selecting pool %s and this node ask for all-interfaces=%v (interfaces %v)", key, ip, a.AllInterfaces, a.Interfaces, pn, all, vfSortedKeys(ifs)), sb.dump())
+			case !all && !reflect.DeepEqual(vfSortedKeys(got), vfSortedKeys(ifs)):
+				c.Violation("l2:scope-differs-from-advertisements:interfaces"+sb.causeSuffix(), fmt.Sprintf("%s %s is held for interfaces %v; the L2Advertisements selecting pool %s and this node name %v", key, ip, vfSortedKeys(got), pn, vfSortedKeys(ifs)), sb.dump())
+			default:
+				c.Nontrivial(fmt.Sprintf("%s|%v|%v", pn, all, vfSortedKeys(ifs)))
+			}
+		}
+	}
+	// read-back: the responder's decision per (address, interface) is exactly "some held scope covers it"
+	for _, ip := range sboxAddresses(s) {
+		for _, intf := range []string{"eth0", "eth1"} {
+			c.Eval()
+			answers := sb.l2.ShouldAnnounce(net.ParseIP(ip), intf) == layer2.VerifDropNone
+			want := len(holders[ip+"@"+intf]) > 0
+			if answers != want {
+				c.Violation("l2:answer-differs-from-held-scopes", fmt.Sprintf("request for %s on %s: answered=%v, services holding it with a scope covering the interface: %v", ip, intf, answers, holders[ip+"@"+intf]), sb.dump())
+			}
+		}
+	}
+}
